@@ -248,6 +248,14 @@ class Scope:
         return s
 
 
+class _LoopContinue(Exception):
+    pass
+
+
+class _LoopBreak(Exception):
+    pass
+
+
 class InterpAbort(Exception):
     def __init__(self, kind, node, rel, msg=''):
         self.kind = kind
@@ -1029,6 +1037,24 @@ class Interp:
                     c2, m = args[0].find_method(args[1])
                     return node is not None or m is not None
                 return self.unk('hasattr of model value', n, s)
+            if name == 'getattr' and len(args) in (2, 3) and isinstance(args[1], str):
+                obj = args[0]
+                if isinstance(obj, Rec):
+                    if args[1] in obj.attrs:
+                        return obj.attrs[args[1]]
+                    c, node = obj.cls.class_attr_node(args[1])
+                    if node is not None:
+                        return self.class_attr_value(c, args[1], node)
+                    c2, m = obj.cls.find_method(args[1])
+                    if m is None and len(args) == 3 and obj.cls.find_method('__getattr__')[1] is None:
+                        return args[2]
+                if isinstance(obj, ClassV):
+                    c, node = obj.class_attr_node(args[1])
+                    if node is not None:
+                        return self.class_attr_value(c, args[1], node)
+                    if obj.find_method(args[1])[1] is None and len(args) == 3:
+                        return args[2]
+                return self.unk('getattr of model value', n, s)
             if name == 'print':
                 return None
         except InterpAbort:
@@ -1149,12 +1175,24 @@ class Interp:
             it = self.iterate(self.eval(st.iter, sc), st.iter, sc)
             if isinstance(it, Unknown):
                 raise InterpAbort('undecided-loop', st, rel, it.reason)
+            broke = False
             for item in it:
                 r = self.bind_target(st.target, item, sc)
                 if isinstance(r, Unknown):
                     raise InterpAbort('undecided-loop', st, rel, r.reason)
-                self.exec_block(st.body, sc)
-            self.exec_block(st.orelse, sc)
+                try:
+                    self.exec_block(st.body, sc)
+                except _LoopContinue:
+                    continue
+                except _LoopBreak:
+                    broke = True
+                    break
+            if not broke:
+                self.exec_block(st.orelse, sc)
+        elif isinstance(st, ast.Continue):
+            raise _LoopContinue()
+        elif isinstance(st, ast.Break):
+            raise _LoopBreak()
         elif isinstance(st, ast.Assert):
             t = self.eval(st.test, sc)
             if isinstance(t, Unknown):
